@@ -1,8 +1,15 @@
 """C05 — load, edit, save, load preserves everything the user did not touch.
 
-Proof (Props/C05.lean): see the theorem list in the evidence (`save_writes_fields`: every section
-header field other than the offset is written as held; data preservation; the composition with C02 and
-C04 as far as discharged).  Correspondence: family load.  Oracle: object 0 loads the image and is
+Proof (Props/C05.lean; details in that file's header): `save_writes_fields` (frame theorem over all
+passes of save: a section keeps everything but placement and residency, a segment everything but
+offset/filesz/memsz/align/offsetSet), `wsdStep_equidistant` + `image_bytes_at_same_vaddr` (corollary by
+hypothesis of C04's member_equidistant: p_vaddr + (sh_offset - p_offset) = sh_addr in the saved bytes,
+data at the mapped position), `loaded_resave_fields` (save then load gives the same section and segment
+fields and data; relative to the abstract `Loaded` predicate = C02's decoders, and to C04's disjointness
+`LayoutOk`), `edit_frame` (+ `edit_frame_add_section`: edits outside the segments do not move members
+or segments).  Only covered by correspondence/oracle: that the model's load satisfies `Loaded` on
+writer output, equality (not only >=) of reloaded memory sizes, ELF32 equidistance.
+Correspondence: family load.  Oracle: object 0 loads the image and is
 observed, is optionally edited (add a section; append to a section that belongs to no segment; add a
 string / symbol / note through the accessors' underlying append), saved and reloaded (eager or lazy),
 observed again: every untouched section must keep name, type, flags, address, size, link, info,
@@ -17,7 +24,13 @@ from families.loadcommon import observe_lines, counts
 PROPERTY = "C05"
 FAMILY = "load"
 LEAN_MODULE = "ElfioVerif.Props.C05"
-THEOREMS = ["ElfioVerif.C05.save_writes_fields"]
+THEOREMS = ["ElfioVerif.C05.save_writes_fields",
+            "ElfioVerif.C05.wsdStep_equidistant",
+            "ElfioVerif.C05.image_bytes_at_same_vaddr",
+            "ElfioVerif.C05.loaded_resave_fields",
+            "ElfioVerif.C05.loaded_resave_names",
+            "ElfioVerif.C05.edit_frame",
+            "ElfioVerif.C05.edit_frame_add_section"]
 SITES = ["save_", "lsws", "lst_", "lseg", "wsd", "load_s", "sec32_load", "sec64_load"]
 RULE = ("well-formed images whose segment contents are covered by sections (encoder-built linker-like images in 4 "
         "configurations; bundled examples that load) x edit histories {none, add section, append to an unsegmented "
